@@ -673,8 +673,8 @@ func main() {
 	var want []string
 	for _, sg := range []string{"findservers-no-endpoints", "createsession-nonrsa-certificate", "activatesession-nonrsa-certificate",
 		"createsubscription-nonpositive-interval", "createsubscription-nil-session-tick", "deletesubscriptions-nil-session",
-		"createmonitoreditems-nil-session", "setmonitoringmode-unknown-id", "setmonitoringmode-nil-session",
-		"deletemonitoreditems-unknown-id", "deletemonitoreditems-nil-session", "browse-datatype-type-assertion"} {
+		"createmonitoreditems-nil-session", "setmonitoringmode-nil-session",
+		"deletemonitoreditems-nil-session", "browse-datatype-type-assertion"} {
 		want = append(want, "crash:C29."+sg)
 	}
 	want = append(want, "canary-ok", "out:ok", "out:fault", "extra:hang:blocked", "extra:signedchunk:noresponse", "extra:browsecls:plain")
